@@ -83,6 +83,8 @@ func printStmt(sb *strings.Builder, s Stmt, st Style) {
 		sb.WriteString("@for(" + st.open("a"))
 		if n.Init != nil {
 			sb.WriteString(Join(append([]string{n.Init.Name, "="}, Tokens(n.Init.E, st)...), st))
+		} else if n.InitE != nil {
+			sb.WriteString(Source(n.InitE, st))
 		}
 		sb.WriteString("; ")
 		if n.Cond != nil {
